@@ -187,6 +187,9 @@ func GenModel(p *PRNG, size int) *Model {
 			codes := []string{"200", "201", "404", "500", "204", "302"}
 			for q := 0; q < nR; q++ {
 				rs := MResponse{Code: codes[(q*2+p.Intn(2))%len(codes)], Body: genBodySchema(p, m)}
+				if p.Chance(1, 3) { // any order of codes, repeated codes
+					rs.Code = Pick(p, codes)
+				}
 				if p.Chance(1, 3) {
 					rs.Annotation = Pick(p, annWords)
 				}
@@ -214,7 +217,7 @@ func GenModel(p *PRNG, size int) *Model {
 				dup = true
 			}
 		}
-		if !dup && seg != "" {
+		if !dup && seg != "" && isNameBytes(seg) {
 			m.Tags = append(m.Tags, MTag{Name: seg, Annotation: Pick(p, annWords), Description: genDescription(p)})
 		}
 	}
@@ -231,9 +234,15 @@ func GenModel(p *PRNG, size int) *Model {
 				}
 				if p.Chance(2, 3) {
 					rm.Params = "{\n  \"a\": 1\n}"
+					if p.Chance(1, 2) {
+						rm.Params = genObjectSchema(p, referable(m), 1, true).Body
+					}
 				}
 				if p.Chance(2, 3) {
 					rm.Result = Pick(p, []string{"{\n  \"ok\": true\n}", "[1, 2]", "\"str\""})
+					if p.Chance(1, 3) {
+						rm.Result = genObjectSchema(p, referable(m), 1, true).Body
+					}
 				}
 				if len(m.Tags) > 0 && p.Chance(1, 4) {
 					rm.Tags = []string{Pick(p, m.Tags).Name}
@@ -247,7 +256,23 @@ func GenModel(p *PRNG, size int) *Model {
 }
 
 func uniqueName(p *PRNG, prefix string, i int) string {
+	switch p.Intn(6) {
+	case 0: // every byte a user type name may have: '_' and '-' matter to name mangling (path tags) and escaping
+		return fmt.Sprintf("%s_%s-%d", Pick(p, words), prefix, i)
+	case 1:
+		return fmt.Sprintf("%s__%s%d_", strings.ToUpper(Pick(p, words)), prefix, i)
+	}
 	return fmt.Sprintf("%s%s%d", Pick(p, words), strings.Title(prefix), i)
+}
+
+func isNameBytes(s string) bool {
+	for i := 0; i < len(s); i++ {
+		c := s[i]
+		if !(c >= 'a' && c <= 'z' || c >= 'A' && c <= 'Z' || c >= '0' && c <= '9' || c == '_' || c == '-') {
+			return false
+		}
+	}
+	return s != ""
 }
 
 func genDescription(p *PRNG) string {
@@ -256,6 +281,14 @@ func genDescription(p *PRNG) string {
 
 func genPath(p *PRNG, i int) string {
 	base := fmt.Sprintf("/%s%d", Pick(p, words), i)
+	switch p.Intn(8) {
+	case 0:
+		base = fmt.Sprintf("/%s_%d", Pick(p, words), i)
+	case 1:
+		base = fmt.Sprintf("/%s-%d.v1", Pick(p, words), i)
+	case 2:
+		base = fmt.Sprintf("/%s~%d", strings.ToUpper(Pick(p, words)), i)
+	}
 	switch p.Intn(4) {
 	case 0:
 		return base + "/{id}"
@@ -331,7 +364,23 @@ func genObjectSchema(p *PRNG, m *Model, depth int, allowRefs bool) Schema {
 		b.WriteString(ind + "}")
 	}
 	obj("", depth)
-	return Schema{Notation: "jsight", Body: b.String(), Uses: uses}
+	body := b.String()
+	if allowRefs && p.Chance(1, 6) {
+		var objs []string
+		for _, t := range m.Types {
+			if t.S.Notation == "jsight" && strings.HasPrefix(t.S.Body, "{") && !strings.Contains(t.S.Body, "allOf") {
+				objs = append(objs, t.Name)
+			}
+		}
+		if len(objs) > 0 {
+			t := Pick(p, objs)
+			uses = append(uses, t)
+			// keys of this object carry an index suffix from a different draw than the base type's: rename to avoid overriding a base property
+			body = strings.Replace(body, "{\n", "{ // {allOf: \"@"+t+"\"}\n", 1)
+			body = strings.ReplaceAll(body, "\": ", "X\": ")
+		}
+	}
+	return Schema{Notation: "jsight", Body: body, Uses: uses}
 }
 
 func referable(m *Model) *Model {
